@@ -53,6 +53,12 @@ each *defined as the sequence of closes the Go code performs, in the code's orde
                       reverse registration order, each closing that process's reader / writer
                                                            process.go:186, inport.go:125, outport.go:170
 
+A reader a harness listener (sink `k`) owns may be linked from several writers (fan-in): it is
+then an endpoint `(w, r)` of each of them, all listened to by the same sink; its queue
+`Reader.writers` is `Sys.queue k`, fed by every accepted write over any of the endpoints, and
+`sinkAnswer k a` is `(*Reader).Receive(a)` by its owner: pop the oldest request, answer the writer
+it came from.  `Writer.Close` never touches that queue.
+
 The static wiring (`Topo`) – which endpoints a port owns (in the order its `Close` ranges over its
 map; the theorems hold for every order), which hooks a process holds, who consumes a writer, who
 listens on a reader – is a parameter.
@@ -203,12 +209,22 @@ structure Sys where
   taken, in order, each with its answer once that is known.  A node answers in the order it
   read (`Tracer.resolve` walks `reads` from the head and stops at the first incomplete one). -/
   reads : WId → RId → List (Nat × Option Ans) := fun _ _ => []
+  /-- `Reader.writers` of the reader sink `k` listens on: the requests handed to it and not yet
+  answered, oldest first, each with the endpoint `(w, r)` it came over.  One Go reader can be
+  linked from several writers (fan-in: two out-ports linked to one in-port, same process): it is
+  then reader `r` of writer `w` *and* reader `r'` of writer `w'`, all these endpoints have the same
+  sink `k`, and this queue is what interleaves their requests.  `Writer.Close` never touches it;
+  the queue of a closed reader is left as it is (each entry is then answered with `false`, as
+  `Reader.Receive` on the queue `Reader.Close` emptied is; the endpoints of one Go reader are
+  closed together). -/
+  queue : Nat → List (WId × RId) := fun _ => []
 
 inductive Step where
   | prim (w : WId) (c : CStep)
   | fwd (w : WId) (r : RId)
   | bwd (w : WId)
   | fwdEnd (w : WId) (r : RId)
+  | sinkAnswer (k : Nat) (a : Ans)
   | down (t : Teardown)
   deriving DecidableEq, Repr
 
@@ -223,11 +239,20 @@ def deliver (t : Topo) (w : WId) (inbox : WId → RId → List Nat) : List (RId 
     | .node _ => deliver t w (fun x y => if x = w ∧ y = r then inbox x y ++ [v] else inbox x y) rest
     | .sink _ => deliver t w inbox rest
 
+/-- Requests a write hands to readers that sinks listen on join those readers' queues
+(`Reader.write`: `r.writers = append(r.writers, request{writer, link})`). -/
+def deliverQ (t : Topo) (w : WId) (queue : Nat → List (WId × RId)) : List (RId × Nat) → Nat → List (WId × RId)
+  | [] => queue
+  | (r, _) :: rest =>
+    match t.listener w r with
+    | .sink k => deliverQ t w (fun x => if x = k then queue x ++ [(w, r)] else queue x) rest
+    | .node _ => deliverQ t w queue rest
+
 def applyPrim (rule : Pump.Rule) (t : Topo) (s : Sys) (w : WId) (c : CStep) : Sys × COut :=
   let r := applyC rule (s.comp w) c
   let s1 := setComp s w r.1
   match r.2 with
-  | .w o => ({ s1 with inbox := deliver t w s1.inbox o.deliv }, r.2)
+  | .w o => ({ s1 with inbox := deliver t w s1.inbox o.deliv, queue := deliverQ t w s1.queue o.deliv }, r.2)
   | _ => (s1, r.2)
 
 def applyClose (rule : Pump.Rule) (t : Topo) (s : Sys) : Close → Sys
@@ -314,6 +339,15 @@ def step (rule : Pump.Rule) (t : Topo) (s : Sys) : Step → Sys × Out
         (setReads f.1 w r f.2, .unit)
       else (s, .skip)
     | .sink _ => (s, .skip)
+  | .sinkAnswer k a =>
+    -- `(*Reader).Receive(a)` by the owner of the reader sink `k` listens on: pop the oldest request,
+    -- answer the writer it came from
+    match s.queue k with
+    | (w, r) :: rest =>
+      let s1 := { s with queue := fun x => if x = k then rest else s.queue x }
+      let p := applyPrim rule t s1 w (.w (.answer r a))
+      (p.1, .c p.2)
+    | [] => (s, .skip)
   | .down td => (applyCloses rule t s (closes t td), .unit)
 
 def run (rule : Pump.Rule) (t : Topo) (s : Sys) : List Step → Sys
@@ -325,7 +359,7 @@ def closeTarget : Close → WId
   | .reader w _ => w
   | .writer w => w
 
-def footprint (t : Topo) : Step → List WId
+def footprint (t : Topo) (s : Sys) : Step → List WId
   | .prim w _ => [w]
   | .fwd w r => match t.listener w r with
     | .node wo => [w, wo]
@@ -336,6 +370,9 @@ def footprint (t : Topo) : Step → List WId
   | .fwdEnd w r => match t.listener w r with
     | .node _ => [w]
     | .sink _ => []
+  | .sinkAnswer k _ => match s.queue k with
+    | (w, _) :: _ => [w]
+    | [] => []
   | .down td => (closes t td).map closeTarget
 
 end Uniflow.Teardown
